@@ -619,7 +619,9 @@ impl NameResolution {
     ) -> hir::ExprId {
         match expr {
             ast::Expr::EPath { path, astptr } => {
-                if let Some(constructor) = self.constructor_path_for(path, ctx) {
+                if !is_local_name(path, env)
+                    && let Some(constructor) = self.constructor_path_for(path, ctx)
+                {
                     return self.alloc_expr_with_ptr(
                         hir_table,
                         *astptr,
@@ -1009,6 +1011,7 @@ impl NameResolution {
             }
             ast::Expr::ECall { func, args, astptr } => {
                 if let ast::Expr::EPath { path, .. } = func.as_ref()
+                    && !is_local_name(path, env)
                     && let Some(constructor) = self.constructor_path_for(path, ctx)
                 {
                     let new_args = args
@@ -1578,6 +1581,12 @@ impl NameResolution {
             astptr: param.astptr,
         }
     }
+}
+
+/// A bare name that an enclosing local binder introduces refers to that binder: locals are
+/// looked up before constructors and other package-level names.
+fn is_local_name(path: &ast::Path, env: &ResolveLocalEnv) -> bool {
+    path.len() == 1 && path.last_ident().is_some_and(|ident| env.rfind(ident).is_some())
 }
 
 fn type_param_set(params: &[ast::AstIdent]) -> HashSet<String> {
